@@ -239,11 +239,22 @@ class Engine:
         s = self.feas_solver
         t = time.time()
         lin = is_linear(extra)
-        s.push()
-        if lin:
-            s.add(extra)
-        r = timed_check(s, self.timeout_ms / 1000.0)
-        s.pop()
+        try:
+            s.push()
+            if lin:
+                s.add(extra)
+            r = timed_check(s, self.timeout_ms / 1000.0)
+            s.pop()
+        except z3.Z3Exception:
+            # a late interrupt of an earlier query cancelled push/pop: the incremental solver's scope
+            # stack can no longer be trusted -- rebuild it from the constraints and treat this query
+            # as undecided (= feasible: sound, the path is kept)
+            self.feas_solver = z3.Solver()
+            self.feas_solver.set("timeout", self.timeout_ms)
+            self._side_loaded = 0
+            self._feas_loaded = 0
+            self._nonlinear = []
+            r = "unknown"
         self.queries += 1
         if r != "unsat" and (self._nonlinear or not lin or self.axiom_hooks) and self.full_feasibility:
             f = z3.Solver()
